@@ -174,6 +174,7 @@ class World:
                     raise EXC[st.get("exc", "ValueError")](msg)
                 if do == "eager":
                     shared_tags = []
+                    same_exc = {}
 
                     async def shared_cb():
                         # ONE callable object registered several times: its k-th call stands for its k-th registration
@@ -184,6 +185,9 @@ class World:
                             m.set_result(pre[1])
                         elif pre[0] == "set_exception":
                             m.set_exception(EXC[pre[1]](pre[2]))
+                        elif pre[0] == "set_exception_same":
+                            # ONE exception object handed over more than once (caught once, reported at several places)
+                            m.set_exception(same_exc.setdefault((pre[1], pre[2]), EXC[pre[1]](pre[2])))
                         elif pre[0] == "refused_retry":
                             # the actor asks for a retry although none is left, and carries on after the refusal
                             try:
